@@ -161,6 +161,9 @@ def main():
         res = []
         for chk, status, detail in rows[name]:
             fp = detail.split("fingerprint: ")[1].split("  cases")[0] if "fingerprint: " in detail else ""
+            if status == "SUPERSEDED":
+                res.append("superseded: " + detail[:160].replace("|", "/"))
+                continue
             res.append(f"{status} by {chk}" + (f": `{fp}`" if fp else ""))
         print(f"| {name} | {what} | {'; '.join(res)} | {NOTES.get(name, '')} |")
 
